@@ -147,7 +147,17 @@ def TablesShape : Prop :=
     shapes uint32ToBytes.items = [(1, 4)] ∧ guardOk uint32ToBytes = true ∧
     shapes MW.Gen.KsCodec.putVersion.items = [(0, 1)] ∧
     (u32ReadersShape && u32WritersShape && versionShape && prefixScanShape && accountInfoShape && internalFirstShape) = true ∧
-    accountMASS = 0
+    accountMASS = 0 ∧
+    -- field names and order as read from the source (a swap of two same-width fields changes these)
+    snaclMarshal.items = [.raw "Salt" 32, .raw "Digest" 32, .le "N" 8, .le "R" 8, .le "P" 8] ∧
+    snaclUnmarshal.items = [.raw "Salt" 32, .raw "Digest" 32, .le "N" 8, .le "R" 8, .le "P" 8] ∧
+    snaclMarshalOffsets = [0, 32, 64, 72, 80] ∧
+    MW.Gen.KsCodec.serializeAccountRow.items = [.u8 "acctType", .lp "rawData" 4] ∧
+    MW.Gen.KsCodec.deserializeAccountRow.items = [.u8 "acctType", .lp "rawData" 4] ∧
+    MW.Gen.KsCodec.serializeHDAccountKey.items = [.lp "encryptedPubKey" 4, .lp "encryptedPrivKey" 4] ∧
+    MW.Gen.KsCodec.deserializeHDAccountKey.items = [.lp "pubKeyEncrypted" 4, .lp "privKeyEncrypted" 4] ∧
+    MW.Gen.KsCodec.putEncryptedPubKey.items = [.le "branch" 4, .le "index" 4] ∧
+    MW.Gen.KsCodec.fetchEncryptedPubKey.items = [.le "branch" 4, .le "index" 4]
 
 theorem tables_shape : TablesShape := by unfold TablesShape; decide
 
